@@ -4,6 +4,7 @@ import RR.Proof.Hand
 import RR.Proof.DspFir
 import RR.Proof.DspFftTags
 import RR.Proof.TagDrive
+import RR.Proof.DspHilbert
 
 /-!
 # C12 — blocks carry tags forward exactly once, at the corresponding output sample
@@ -130,6 +131,20 @@ theorem c12_fir_any_chunking {α : Type} (o : Dsp.Ops α) (cd : Dsp.Codec α) (t
     let r := Dsp.driveT (Dsp.firBlock o cd taps deci) X T () 0 [] [] sched
     r.2.2.2.Perm ((Dsp.rng T 0 r.2.1).map (Dsp.mp (· / deci))) ∧ r.2.1 = r.2.2.1.length * deci :=
   Dsp.fir_tags_drive o cd taps deci X T hd ht sched
+
+/-- **Hilbert, every schedule**: every tag of a consumed sample has been handed on exactly once, at the same
+index (one output per input). -/
+theorem c12_hilbert_any_chunking {α : Type} (o : Dsp.Ops α) (cd : Dsp.Codec α) (pair : α → α → Nat)
+    (k : List α → List α → α) (taps : List α) (hnt : 0 < taps.length) (X : List Nat) (T : List Tag)
+    (sched : List (Nat × Nat)) :
+    let B := Dsp.hilbertBlock o cd pair (fun p q => some (k p q)) taps
+    let r := Dsp.driveT B X T B.init 0 [] [] sched
+    r.2.2.2.Perm (Dsp.rng T 0 r.2.1) ∧ r.2.2.1.length = r.2.1 := by
+  intro B r
+  obtain ⟨_, h2, h3⟩ := Dsp.hilbert_drive o cd pair k taps hnt X T sched
+  refine ⟨h3, ?_⟩
+  have := congrArg List.length h2
+  simpa using this
 
 /-- **FftFilter, every schedule.** The input history `X` carries the tags `T` (absolute
 positions, any number per sample, any order). However the input is cut into read windows and however
